@@ -260,7 +260,7 @@ func runC09(c *report.Ctx) {
 	}
 
 	// ---- selection uses the flag ------------------------------------------------------
-	ruleEligibility(c, true)
+	ruleEligibility(c, "pending")
 	rulePendingInputsAppend(c)
 	ruleRollbackReverseOrder(c)
 	ruleLayout(c, []string{"outpoint-key", "credit-value"}, 12)
